@@ -588,22 +588,35 @@ def corner_defs():
 
 
 def known_live_views(ctx):
-    """Open finding: freeze_value converts dict / set / list / tuple only; another Mapping or Set (a keys view, a
-    MappingProxyType, a UserDict) is stored as it is, so a later change by the caller reaches the automaton."""
+    """Finding repaired in /repo (freeze_value freezes every Mapping and Set): arguments that are mappings / sets of
+    another type than the builtins (a keys view, a MappingProxyType, a UserDict) must end up frozen like a dict / set,
+    and a later write by the caller must not reach the automaton.  Regression, runs on every pass."""
     import types
+    problems = []
     table = {0: {"a": 1}, 1: {"a": 1}}
-    out = ("err", 0, "")
     try:
-        d = by_cls("DFA")(states={0, 1}, input_symbols={"a"}, transitions=types.MappingProxyType(table), initial_state=0,
+        d = by_cls("DFA")(states=table.keys(), input_symbols={"a"}, transitions=types.MappingProxyType(table), initial_state=0,
                           final_states={1})
-        before = d.accepts_input("a")
+        snap = g.snapshot(d.input_parameters)
+        bad = [p for k, v in d.input_parameters.items() for p in g.mutable_paths(v, k)]
         table[0] = {"a": 0}
-        out = ("ok", (before, d.accepts_input("a")))
+        table[2] = {}
+        if g.snapshot(d.input_parameters) != snap or d.accepts_input("a") is not True:
+            problems.append("DFA(states=table.keys(), transitions=MappingProxyType(table)): the caller's later writes to "
+                            f"table changed the automaton: {d.input_parameters!r:.200}")
+        if bad:
+            problems.append("DFA built from a keys view / MappingProxyType stores mutable values at " + ", ".join(bad[:3]))
+        u = collections.UserDict({0: {"a": {0: 1}.keys()}, 1: {}})
+        n = by_cls("NFA")(states={0, 1}, input_symbols={"a"}, transitions=u, initial_state=0, final_states={0})
+        snap = g.snapshot(n.input_parameters)
+        bad = [p for k, v in n.input_parameters.items() for p in g.mutable_paths(v, k)]
+        u[0] = {"a": {1}}
+        if g.snapshot(n.input_parameters) != snap or bad:
+            problems.append(f"NFA built from a UserDict with a keys view as target set is not frozen: {bad[:3]}")
     except Exception as e:  # noqa: BLE001
-        out = ("err", 0, type(e).__name__)
-    ctx.open_finding("constructor_keeps_non_builtin_containers_live", out[0] == "ok" and out[1][0] != out[1][1],
-                     "DFA(transitions=MappingProxyType(table)): accepts_input('a') before / after the caller rewrites "
-                     f"table[0]: {out}")
+        problems.append(f"constructing from non-builtin containers raised {type(e).__name__}: {e}")
+    ctx.tally("non_builtin_container_regression")
+    ctx.open_finding("constructor_keeps_non_builtin_containers_live", bool(problems), "; ".join(problems))
 
 
 def by_cls(name):
